@@ -64,6 +64,17 @@ def run(ctx):
     kernelcheck.check_pinned(ctx)
     kernelcheck.run_configs(ctx, cfgs, budget_s=70 if ctx.tier == "quick" else 3000, mandatory=N_MANDATORY)
     dc = kernelmat.default_config
+    ro = random.Random(ctx.sub("orbit"))
+    orbit_specs = [(dc(op="prg", n=7, data_seed=71, alpha=ro.choice([0.6, 1.0, 1.8]), samples=ro.choice([1, 2])), {"kind": "singletons"}),
+                   (dc(op="prg", n=8, data_seed=72, alpha=ro.choice([0.6, 1.0, 1.8]), outlier_prob=0.2), {"kind": "singletons", "n_out": 1}),
+                   (dc(op="dp", n=6, data_seed=73, alpha=ro.choice([0.6, 1.0, 1.8])), {"kind": "structure", "structure": [[[]]]})]
+    if ctx.tier != "quick":
+        orbit_specs += [(dc(op="dp", n=6, data_seed=74, alpha=1.3, outlier_prob=0.1), {"kind": "structure", "structure": [[], []], "outliers": True}),
+                        (dc(op="dp", n=6, data_seed=75, alpha=0.8), {"kind": "structure", "structure": [[[], []]]}),
+                        (dc(op="dp", n=7, data_seed=76, alpha=1.1), {"kind": "structure", "structure": [[], []]}),
+                        (dc(op="prg", n=8, data_seed=77, alpha=1.4), {"kind": "singletons"}),
+                        (dc(op="prg", n=6, data_seed=78, alpha=1.0, outlier_prob=0.3), {"kind": "all", "outliers": True})]
+    kernelcheck.run_orbit_classes(ctx, orbit_specs, max_leaves=400000 if ctx.tier == "quick" else 4000000)
     rs = random.Random(ctx.sub("statcfg"))
     stat_cfgs = [dc(op=op_, n=5, style=rs.choice(["binom", "gauss"]), grid=rs.choice([7, 11]), data_seed=rs.randrange(1 << 30), alpha=rs.choice([0.5, 1.0, 2.0]),
                     outlier_prob=rs.choice([0.0, 0.1])) for op_ in ("dp", "prg")]
